@@ -27,6 +27,12 @@ Explains(e) ==
      \/ e.op = "tzdays"     /\ Res(e.r, TzAddDays(e.u, e.off, J(e.k)), e.off)
      \/ e.op = "tzmonths"   /\ Res(e.r, TzAddMonths(e.u, e.off, J(e.k)), e.off)
      \/ e.op = "with_time"  /\ Res(e.r, TzWithTime(e.u, e.off, e.t), e.off)
+     \* whole years elapsed between two zone-aware values of the same offset: calendar fields and time of day of the WALL clocks
+     \/ e.op = "tz.years_since" /\ LET wa == Wall(e.a, e.off)  wb == Wall(e.b, e.off)
+                                       ka == <<MonthOfDay(wa.n), DayOfMonth(wa.n), wa.secs, wa.frac>>  kb == <<MonthOfDay(wb.n), DayOfMonth(wb.n), wb.secs, wb.frac>>
+                                       earlier == \E i \in 1..4 : ka[i] < kb[i] /\ \A j \in 1..(i - 1) : ka[j] = kb[j]
+                                       yrs == YearOfDay(wa.n) - YearOfDay(wb.n) - (IF earlier THEN 1 ELSE 0) IN
+                                   e.r = (IF yrs >= 0 THEN yrs ELSE -1)
      \* FixedOffset: offsets strictly within a day, east positive
      \/ e.op = "offset"     /\ LET ok == e.arg > -86400 /\ e.arg < 86400 IN
                                /\ e.east = (IF ok THEN <<e.arg, -e.arg>> ELSE <<>>)           \* <<local_minus_utc, utc_minus_local>>
